@@ -32,4 +32,29 @@ TEXTS = {
         "level_text": "Exploration: each lint run of corpus, directed (home objects of each lint x edits) and generated objects contributes to a lint x status tally judged against the naming contract; nine listed lint+status pairs are known findings, any other pair is a violation.",
         "level_note": "Only return paths that some generated object reaches are observed.",
     },
+    "C07": {
+        "technique": "differential full-vs-filtered registry (metamorphic) over enumerated single-lint selections and rapid-generated filters",
+        "level_text": "Every lint is run alone on its home objects (enumerated) and generated objects are linted under generated selections; each selected lint's status and details must equal the full run's on a fresh parse, also when both runs share one parsed object in either order, and filtered flags must imply full flags.",
+        "level_note": "Compares details too, so it relies on C05's determinism (repaired in the tree).",
+    },
+    "C08": {
+        "technique": "rapid-generated FilterOptions against a set-algebra reference model; behavioural probe of inherited configuration",
+        "level_text": "Model-based: the documented selection and error rules are re-implemented as plain set algebra and compared with Filter on tens of thousands to a million generated option sets, including pre-filtered registries; kind, metadata, object identity, Sources(), Names() order, lookup consistency, untouched source registry and inherited configuration are all checked.",
+        "level_note": "Regular expressions come from a dictionary; arbitrary regexp syntax is not generated.",
+    },
+    "C11": {
+        "technique": "rapid-generated TOML documents with metamorphic equivalences and per-option models; rapid state machine for configuration histories",
+        "level_text": "Equivalence (none = empty = unrelated), example configuration validity, option locality with models of the four options' meaning, ill-typed sections must yield exactly one fatal naming the lint and no panic; a stateful model of which configuration each registry holds (including Filter aliasing) predicts every verdict in generated SetConfiguration/Filter/lint histories.",
+        "level_note": "Fermat Rounds capped at 2000; option models exist for today's four configurable lints.",
+    },
+    "C13": {
+        "technique": "exhaustive enumeration of listed names/sources/profiles through library and the real CLI + rapid unknown tokens",
+        "level_text": "Everything the registry lists is fed back through every selector entry point (Filter include/exclude, LintSource.FromString, SourceList.FromString, JSON, library source filters, CLI flags) - complete for the tree as it is; generated unknown tokens must be rejected everywhere.",
+        "level_note": "CLI name round trips are strided in the quick tier (every 9th name), complete in thorough.",
+    },
+    "C14": {
+        "technique": "round-trip property (Marshal/Unmarshal) over rapid-generated result sets and synthetic results; enumerated status/label table; strict decoding of WriteJSON",
+        "level_text": "Round trip on generated result sets (with hostile bytes planted into names so details carry them) and on synthetic results with arbitrary bytes; the U+FFFD model is written independently; statuses -3..12 and arbitrary label strings are classified; every WriteJSON line of generated filtered registries is decoded with unknown fields disallowed.",
+        "level_note": "JSON escapes inside labels (\\u0070ass) are outside the generated domain.",
+    },
 }
